@@ -701,3 +701,126 @@ Proof.
          (mkS (map zq [2; 3; 4]%Z) (map zq [1; 1; 2]%Z) UNm VNone), (zq 7), (zq 9).
   unfold wf. simpl incr. repeat split; try discriminate; try reflexivity.
   vm_compute. eexists. reflexivity. Qed.
+
+(* ------------------------------------------------------------------ (e) density value units: add and subtract *)
+Section ValScale.
+Variable k : Qc.
+Let sk (y : Qc) : Qc := y * k.
+
+Lemma chord_vscale w0 w1 v0 v1 x : chord w0 w1 (v0 * k) (v1 * k) x = chord w0 w1 v0 v1 x * k.
+Proof. unfold chord, Qcdiv. ring. Qed.
+Lemma interp_vscale w : forall v x, interp w (map sk v) x = interp w v x * k.
+Proof. induction w as [|a [|b t] IH]; intros v x.
+  - destruct v; simpl; [ring|reflexivity].
+  - destruct v; simpl; [ring|reflexivity].
+  - destruct v as [|v0 [|v1 vt]]; try (simpl; ring).
+    + reflexivity.
+    + change (interp (a :: b :: t) (map sk (v0 :: v1 :: vt)) x)
+        with (if qleb x b then chord a b (sk v0) (sk v1) x else interp (b :: t) (map sk (v1 :: vt)) x).
+      change (interp (a :: b :: t) (v0 :: v1 :: vt) x)
+        with (if qleb x b then chord a b v0 v1 x else interp (b :: t) (v1 :: vt) x).
+      unfold sk at 1 2. rewrite chord_vscale, IH. destruct (qleb x b); reflexivity. Qed.
+Lemma fillarr_vscale fx f w g : fillarr fx (fscale k f) w g = rmap_res (map sk) (fillarr fx f w g).
+Proof. destruct f as [c|lo hi]; simpl.
+  - now rewrite map_map.
+  - destruct fx; simpl.
+    + rewrite map_map. f_equal. apply map_ext. intros x. destruct (qltb x (wmin w)); reflexivity.
+    + destruct g as [|g0 [|g1 [|? ?]]]; reflexivity. Qed.
+Lemma sample_on_vscale w v g : forall fa, sample_on w (map sk v) (map sk fa) g = map sk (sample_on w v fa g).
+Proof. unfold sample_on. induction g as [|x g IH]; intros [|y fa]; simpl; auto.
+  rewrite IH, interp_vscale. destruct (inrange w x); reflexivity. Qed.
+Lemma apply_vscale o x y : o = OAdd \/ o = OSub -> apply o (x * k) (y * k) = xscale k (apply o x y).
+Proof. intros [-> | ->]; simpl; f_equal; ring. Qed.
+Lemma map2_apply_vscale o a : o = OAdd \/ o = OSub ->
+  forall b, map2 (apply o) (map sk a) (map sk b) = map (xscale k) (map2 (apply o) a b).
+Proof. intros Ho. induction a as [|x a IH]; intros [|y b]; simpl; auto.
+  unfold sk at 1 2. now rewrite apply_vscale, IH. Qed.
+Lemma core_vscale fx o w1 v1 w2 v2 m f : o = OAdd \/ o = OSub ->
+  core fx o w1 (map sk v1) w2 (map sk v2) m (fscale k f)
+  = rmap_res (fun gv => (fst gv, map (xscale k) (snd gv))) (core fx o w1 v1 w2 v2 m f).
+Proof. intros Ho. unfold core. destruct (common_grid w1 w2 m) as [g|]; simpl; auto.
+  rewrite !fillarr_vscale. destruct (fillarr fx f w1 g) as [f1|]; simpl; auto.
+  destruct (fillarr fx f w2 g) as [f2|]; simpl; auto.
+  now rewrite !sample_on_vscale, map2_apply_vscale. Qed.
+End ValScale.
+
+Lemma div_as_mul (y f : Qc) : y / f = y * / f. Proof. reflexivity. Qed.
+Lemma to_wu_density s u : vu s <> VNone ->
+  wave (to_wu s u) = map (fun x => x * ufac (wu s) u) (wave s) /\
+  value (to_wu s u) = map (fun y => y * / ufac (wu s) u) (value s) /\
+  vu (to_wu s u) = vu s /\ wu (to_wu s u) = u.
+Proof. intros H. unfold to_wu; simpl. destruct (vu s); try congruence; auto. Qed.
+Lemma conv_density s u : vu s <> VNone ->
+  wave (conv s u) = map (fun x => x * ufac (wu s) u) (wave s) /\
+  value (conv s u) = map (fun y => y * / ufac (wu s) u) (value s).
+Proof. intros H. unfold conv. destruct (wunit_eqb (wu s) u) eqn:E.
+  - apply wunit_eqb_eq in E. rewrite E, ufac_refl. split.
+    + rewrite <- (map_id (wave s)) at 1. apply map_ext. intros; ring.
+    + rewrite <- (map_id (value s)) at 1. apply map_ext. intros. field. discriminate.
+  - destruct (to_wu_density s u H) as (A & B & _). auto. Qed.
+
+Lemma spec_op_unit_agnostic_density fx o s1 s2 m f u1 u2 : vu s1 <> VNone -> vu s2 <> VNone ->
+  (o = OAdd \/ o = OSub) ->
+  spec_op fx o (to_wu s1 u1) (to_wu s2 u2) (scale_sampling (ufac (wu s1) u1) m) (fscale (/ ufac (wu s1) u1) f)
+  = rmap_res (fun r => rto_density r u1) (spec_op fx o s1 s2 m f).
+Proof. intros V1 V2 Ho. unfold spec_op.
+  destruct (to_wu_density s1 u1 V1) as (W1 & X1 & Y1 & U1).
+  destruct (to_wu_density s2 u2 V2) as (W2 & X2 & Y2 & U2).
+  assert (V2' : vu (to_wu s2 u2) <> VNone) by congruence.
+  destruct (conv_density (to_wu s2 u2) (wu (to_wu s1 u1)) V2') as (W3 & X3).
+  destruct (conv_density s2 (wu s1) V2) as (W4 & X4).
+  rewrite W3, X3, W1, X1, X2, U1, U2, W2, Y1. rewrite W4, X4.
+  set (c := ufac (wu s1) u1).
+  assert (E : map (fun x => x * ufac u2 u1) (map (fun x => x * ufac (wu s2) u2) (wave s2))
+              = map (fun x => x * c) (map (fun x => x * ufac (wu s2) (wu s1)) (wave s2))).
+  { rewrite !map_map. apply map_ext. intros x. unfold c.
+    rewrite <- !Qcmult_assoc, !ufac_trans. reflexivity. }
+  assert (E2 : map (fun y => y * / ufac u2 u1) (map (fun y => y * / ufac (wu s2) u2) (value s2))
+              = map (fun y => y * / c) (map (fun y => y * / ufac (wu s2) (wu s1)) (value s2))).
+  { rewrite !map_map. apply map_ext. intros y. unfold c.
+    rewrite <- !Qcmult_assoc, <- !Qcinv_mult_distr, !ufac_trans. reflexivity. }
+  rewrite E, E2. rewrite (core_scale c (ufac_pos _ _)). rewrite (core_vscale (/ c) fx o _ _ _ _ m f Ho).
+  destruct (core fx o (wave s1) (value s1) (map (fun x => x * ufac (wu s2) (wu s1)) (wave s2))
+              (map (fun y => y * / ufac (wu s2) (wu s1)) (value s2)) m f) as [[g vals]|]; simpl; auto. Qed.
+
+(* density (left) times / over a unitless spectrum (right), default fill value 0 *)
+Section ValScaleLeft.
+Variable k : Qc.
+Let sk (y : Qc) : Qc := y * k.
+Lemma apply_vscale_left o x y : o = OMul \/ o = ODiv -> apply o (x * k) y = xscale k (apply o x y).
+Proof. intros [-> | ->]; simpl.
+  - f_equal; ring.
+  - destruct (qc_is0 y); simpl; auto. f_equal. unfold Qcdiv. ring. Qed.
+Lemma map2_apply_vscale_left o a : o = OMul \/ o = ODiv ->
+  forall b, map2 (apply o) (map sk a) b = map (xscale k) (map2 (apply o) a b).
+Proof. intros Ho. induction a as [|x a IH]; intros [|y b]; simpl; auto.
+  unfold sk at 1. now rewrite apply_vscale_left, IH. Qed.
+Lemma zeros_vscale (g : list Qc) : map sk (map (fun _ => 0) g) = map (fun _ => 0) g.
+Proof. rewrite map_map. apply map_ext. intros; unfold sk; ring. Qed.
+Lemma core_vscale_left fx o w1 v1 w2 v2 m : o = OMul \/ o = ODiv ->
+  core fx o w1 (map sk v1) w2 v2 m (FScalar 0)
+  = rmap_res (fun gv => (fst gv, map (xscale k) (snd gv))) (core fx o w1 v1 w2 v2 m (FScalar 0)).
+Proof. intros Ho. unfold core. destruct (common_grid w1 w2 m) as [g|]; simpl; auto.
+  rewrite <- (zeros_vscale g) at 1. fold sk. rewrite (sample_on_vscale k).
+  now rewrite map2_apply_vscale_left. Qed.
+End ValScaleLeft.
+
+Lemma spec_op_unit_agnostic_density_left fx o s1 s2 m u1 u2 : vu s1 <> VNone -> vu s2 = VNone ->
+  (o = OMul \/ o = ODiv) ->
+  spec_op fx o (to_wu s1 u1) (to_wu s2 u2) (scale_sampling (ufac (wu s1) u1) m) (FScalar 0)
+  = rmap_res (fun r => rto_density r u1) (spec_op fx o s1 s2 m (FScalar 0)).
+Proof. intros V1 V2 Ho. unfold spec_op.
+  destruct (to_wu_density s1 u1 V1) as (W1 & X1 & Y1 & U1).
+  destruct (to_wu_none s2 u2 V2) as (W2 & X2 & Y2 & U2).
+  destruct (conv_none (to_wu s2 u2) (wu (to_wu s1 u1)) Y2) as (W3 & X3 & _).
+  destruct (conv_none s2 (wu s1) V2) as (W4 & X4 & _).
+  rewrite W3, X3, W1, X1, X2, U1, U2, W2, Y1. rewrite W4, X4.
+  set (c := ufac (wu s1) u1).
+  assert (E : map (fun x => x * ufac u2 u1) (map (fun x => x * ufac (wu s2) u2) (wave s2))
+              = map (fun x => x * c) (map (fun x => x * ufac (wu s2) (wu s1)) (wave s2))).
+  { rewrite !map_map. apply map_ext. intros x. unfold c.
+    rewrite <- !Qcmult_assoc, !ufac_trans. reflexivity. }
+  rewrite E. rewrite (core_scale c (ufac_pos _ _) fx o _ _ _ _ m (FScalar 0)).
+  rewrite (core_vscale_left (/ c) fx o _ _ _ _ m Ho).
+  destruct (core fx o (wave s1) (value s1) (map (fun x => x * ufac (wu s2) (wu s1)) (wave s2)) (value s2) m (FScalar 0))
+    as [[g vals]|]; simpl; auto. Qed.
